@@ -18,9 +18,10 @@ EW = r"(W|West|E|East)"
 TR_SEP = r"(-|[ ]|,[ ]|[ ]-[ ]|\n)"
 
 # full spellings: township word optional, directions explicit; a bare range
-# '2' only with an explicit range word
+# '2' only with an explicit range word; the separator between township and
+# range may be missing ('t154nr97w', as in the repo's own regex tests)
 TWPRGE_FULL = (
-    rf"({T_WORD}[ ]?)?[0-9]{{1,3}}[ ]?{NS}{TR_SEP}"
+    rf"({T_WORD}[ ]?)?[0-9]{{1,3}}[ ]?{NS}{TR_SEP}?"
     rf"(({R_WORD}[ ]?)?([0-9]{{2,3}}|[013-9])|{R_WORD}[ ]?2)[ ]?{EW}"
 )
 # the canonical text produced by preprocessing
